@@ -269,5 +269,11 @@ def innermost_repo_frame(tb):
     return best or 'outside-repo'
 
 
+def raised_inside(exc, path_fragment):
+    """True if the frame that raised ``exc`` lies in a file whose path contains ``path_fragment``."""
+    frames = traceback.extract_tb(exc.__traceback__)
+    return bool(frames) and path_fragment in frames[-1].filename.replace(os.sep, '/')
+
+
 def exc_mechanism(exc):
     return '%s@%s' % (type(exc).__name__, innermost_repo_frame(exc.__traceback__))
